@@ -241,3 +241,116 @@ def rule_globalidx(ctx) -> RuleResult:
     if not okrb:
         res.report("core._reduce_blockwise|unravel", rb.where(), rb.qualname, "the eager arg-reduction no longer unravels flat indices over array.shape")
     return res
+
+
+# ---------------------------------------------------------------------------------------------
+SORT_CALLS = {"np.sort", "numpy.sort", "sorted"}
+
+
+def _is_sorted_expr(e: ast.AST, sorted_vars: set[str]) -> bool:
+    if isinstance(e, ast.Call):
+        fn = norm(e.func)
+        if fn in SORT_CALLS:
+            return True
+        if isinstance(e.func, ast.Attribute) and e.func.attr in ("sort_values", "sort"):
+            return True
+        if fn in ("pd.Index", "pandas.Index", "pd.IntervalIndex.from_breaks", "np.asarray", "np.array") and e.args:
+            # constructors keep the order of their (sorted) argument; bin edges are breaks given in ascending order by contract
+            return fn.endswith("from_breaks") or _is_sorted_expr(e.args[0], sorted_vars)
+    if isinstance(e, ast.Name):
+        return e.id in sorted_vars
+    return False
+
+
+def rule_sorted(ctx) -> RuleResult:
+    res = RuleResult("R-SORTED", "with sort=True every requested-label index handed on has been sorted", min_instances=3)
+    from ..cfg import CFG
+    from ..dataflow import forward, atom_of
+    f = ctx.prog.func("core._convert_expected_groups_to_index")
+    if "sort" not in f.params:
+        raise AnalysisError("_convert_expected_groups_to_index lost its sort parameter (anchor)")
+    cfg = CFG(f)
+    # must-analysis: (sort_fact, frozenset of variables known to be sorted whenever sort is true)
+    TOP = None
+
+    def t1(n, fact, sv):
+        a = n.ast
+        if n.kind == "stmt" and isinstance(a, ast.Assign) and len(a.targets) == 1 and isinstance(a.targets[0], ast.Name):
+            name = a.targets[0].id
+            if _is_sorted_expr(a.value, set(sv)):
+                return (fact, sv | {name})
+            return (fact, sv - {name})
+        if n.kind == "for":
+            gone = {x.id for x in ast.walk(a.target) if isinstance(x, ast.Name)}
+            return (fact, sv - gone)
+        return (fact, sv)
+
+    def transfer(n, st):
+        return frozenset(t1(n, fact, sv) for fact, sv in st)
+
+    def edge(n, lab, st):
+        if n.kind == "test" and lab in ("T", "F"):
+            at, pol = atom_of(n.ast)
+            if at == "sort":
+                val = pol if lab == "T" else not pol
+                out = frozenset((val, sv) for fact, sv in st if fact is None or fact == val)
+                return out or None
+        return st
+
+    def join(x, y):
+        return x | y
+
+    ins, _ = forward(cfg, frozenset({(None, frozenset())}), transfer, edge=edge, join=join)
+    n_app = 0
+    for n in cfg.nodes:
+        if n.id not in ins or n.kind != "stmt" or not isinstance(n.ast, ast.Expr):
+            continue
+        c = n.ast.value
+        if not (isinstance(c, ast.Call) and isinstance(c.func, ast.Attribute) and c.func.attr == "append" and c.args):
+            continue
+        n_app += 1
+        e = c.args[0]
+        if isinstance(e, ast.Constant) and e.value is None:
+            res.inst(f"append(None) [no requested labels for this grouper]")
+            continue
+        states = ins[n.id]
+        ok = all(fact is False or _is_sorted_expr(e, set(sv)) for fact, sv in states)
+        facts = sorted({str(fact) for fact, _ in states})
+        res.inst(f"{norm(c)[:60]} under sort in {facts}: sorted whenever sort may be true: {ok}", f"append|{norm(c)[:40]}")
+        if not ok:
+            res.report(f"core._convert_expected_groups_to_index|unsorted|{norm(e)[:40]}", f.where(c), f.qualname,
+                       f"{norm(c)[:70]} can be reached with sort=True without {norm(e)[:30]} having been sorted: the requested labels keep the caller's "
+                       "order, so downstream code that assumes ascending labels pairs each label with the value of another")
+    if n_app < 3:
+        raise AnalysisError(f"_convert_expected_groups_to_index: {n_app} appends found (hand-confirmed: 5)")
+    return res
+
+
+# ---------------------------------------------------------------------------------------------
+def rule_infresolve(ctx) -> RuleResult:
+    res = RuleResult("R-INFRESOLVE", "for floating dtypes the INF / NINF fill sentinels resolve to +-np.inf (the identities of min / max)",
+                     min_instances=2)
+    u = ctx.prog
+    for fn, want in (("xrdtypes.get_pos_infinity", "np.inf"), ("xrdtypes.get_neg_infinity", "-np.inf")):
+        f = u.func(fn)
+        found = False
+        for n in walk_own(f.node):
+            if isinstance(n, ast.If) and "np.floating" in norm(n.test) and "issubclass" in norm(n.test):
+                found = True
+                rets = [x for x in ast.walk(ast.Module(body=n.body, type_ignores=[])) if isinstance(x, ast.Return)]
+                vals = [norm(r.value) for r in rets]
+                ok = vals == [want]
+                res.inst(f"{fn}: floating branch returns {vals}", fn)
+                if not ok:
+                    res.report(f"{fn}|float-identity", f.where(n), fn,
+                               f"for floating dtypes the sentinel resolves to {vals} instead of {want}: a finite stand-in is neutral for finite data only; "
+                               f"a group whose true extreme is {want} merged with an absent block yields the stand-in")
+        if not found:
+            raise AnalysisError(f"{fn}: floating-dtype branch not found (anchor)")
+    g = u.func("xrdtypes._get_fill_value")
+    t = norm(g.node)
+    ok = "fill_value == INF" in t and "get_pos_infinity(dtype" in t and "fill_value == NINF" in t and "get_neg_infinity(dtype" in t
+    res.inst(f"_get_fill_value maps INF -> get_pos_infinity and NINF -> get_neg_infinity: {ok}", "map")
+    if not ok:
+        res.report("xrdtypes._get_fill_value|sentinel-map", g.where(), g.qualname, "INF / NINF are no longer resolved through get_pos_infinity / get_neg_infinity respectively")
+    return res
